@@ -493,18 +493,24 @@ def shapes(tier):
     pats = {0: [(' LL', 'LLL'), ('LLL', ' LL'), ('  L', '  L')], 3: [('LLL', '  L'), (' LL', 'LLL'), ('  L', ' LL')],
             1: [('DD', 'DD'), (' D', 'DD'), ('DD', ' D')], 2: [(' DD', 'DDD'), ('DDD', ' DD'), ('  D', '  D')]}
     n = 0
-    rects = ['r2x1', 'r2x2', 'r3x2']
+    def one(topo, conv, atm, unit, order):
+        pn, pc_ = pats[conv][(n // 2) % 3]
+        add(topo=topo, nlayers=1 + (n % 3), layers=lays[(n // 3) % 5], convention=conv, atmos=atm, unit=unit, block_order=order,
+            surfaces=surfs[n % 3], surface_above=(n % 7 == 0), wells=wells[(n + conv) % 5], ncentres=(n // 2) % 2,
+            centres='free' if n % 5 == 0 else 'mid', symnames=(n % 4 != 1), node_pattern=pn, column_pattern=pc_,
+            gdc=(n % 3 == 0), case='u' if n % 4 == 2 else None, cycles=3 if n % 2 == 0 else 2)
+    # the full product of the header options, the topology rotating through all five
     for conv in range(4):
         for atm in range(3):
-            for ui, unit in enumerate(('', 'FEET ')):
-                for oi, order in enumerate(orders):
-                    for ti, topo in enumerate((rects[(conv + atm + ui + oi) % 3], ['mix', 'mixtq'][(conv + atm + oi) % 2])):
-                        n += 1
-                        pn, pc_ = pats[conv][(n // 2) % 3]
-                        add(topo=topo, nlayers=1 + (n % 3), layers=lays[(n // 3) % 5], convention=conv, atmos=atm, unit=unit, block_order=order,
-                            surfaces=surfs[(n + ti) % 3], surface_above=(n % 7 == 0), wells=wells[(n + conv) % 5], ncentres=(n // 2) % 2,
-                            centres='free' if n % 5 == 0 else 'mid', symnames=(n % 4 != 1), node_pattern=pn, column_pattern=pc_,
-                            gdc=(n % 3 == 0), case='u' if n % 4 == 2 else None, cycles=3 if n % 2 == 0 else 2)
+            for unit in ('', 'FEET '):
+                for order in orders:
+                    n += 1
+                    one(topos[n % 5], conv, atm, unit, order)
+    # every convention x atmosphere type also on the other family of topologies
+    for conv in range(4):
+        for atm in range(3):
+            n += 1
+            one(['mix', 'r3x2', 'mixtq', 'r2x2'][(conv + atm) % 4], conv, atm, ['', 'FEET '][n % 2], orders[(conv + atm) % 3])
     # layer centres that print as 0.00 (exact decimal rounding model)
     for conv in (0, 1):
         for nl, lk in ((1, 'zeromid'), (2, 'zeromid'), (2, 'zeromid2'), (3, 'zeromid2')):
@@ -520,7 +526,7 @@ def run(tier, seed, rep):
     rep.add_results(report.run_tasks(tasks))
     rep.bounds += [
         '%d shapes: topologies RECT 2x1, 2x2, 3x2 from the real mulgrid().rectangular() and an irregular mesh (2 quadrilaterals, 1 triangle, 1 pentagon; one column handed over clockwise) from add_node/add_column/add_connection/add_layers; 1..3 layers (+ atmosphere layer); convention 0..3 x atmosphere type 0..2 x units metres/feet x block order None/layer_column/dmplex%s' % (
-            len(sh), ' (full product, each combination on one rectangular and one irregular topology; the dmplex order uses the mesh without the pentagon)' if tier == 'thorough' else ' (each value at least once)'),
+            len(sh), ' (full product of the four header options with the topology rotating through all five, plus every convention x atmosphere type on a second topology; the dmplex order uses the mesh without the pentagon)' if tier == 'thorough' else ' (each value at least once)'),
         'symbolic: every node coordinate (base +- %g), specified centre of 0/1 columns (base +- %g), every layer bottom (base +- %g; layer 0 has bottom = centre = top), layer centres (midpoints as add_layers() makes them, or free values strictly inside the layer), surfaces on 0 / 1 / all columns (anywhere inside a chosen layer except within %g of its boundaries, or up to 50 above ground level), 0..2 wells x 2..3 track points (x, y within 100 of the first node, z within 1000 of ground level), atmosphere_volume and atmosphere_connection (any real with 1e-90 <= |v| <= 1e90 or 0), gdcx, gdcy (unset or in [-1, 1]), permeability_angle (in [-360, 360]); one node name and one column name with symbolic characters (3 cells, right-justified, upper or lower case letters; digits under conventions 1 and 2), different from every other name' % (MODEL.DELTA_XY, MODEL.DELTA_XY, MODEL.DELTA_Z, MODEL.MARGIN),
         'base coordinates include 7-digit map-grid values (2776000, 6282000) and a row at the negative 10-column limit (-999997 +- 1: values that do not fit 10 columns are excluded by the fit condition)',
         'layer centres that print as 0.00: decided in dedicated shapes (layers zeromid / zeromid2: a layer whose centre lies within %g of elevation 0) with an exact decimal rounding model for the layer elevations (witnesses keep 1/100 of a unit in the last place away from ties); in all other shapes the layer centres are at least 7 away from 0' % MODEL.DELTA_Z]
@@ -536,5 +542,10 @@ def run(tier, seed, rep):
         'in-memory file stub replaces open()',
         'nonlinear branch conditions (polygon area sign, centroid denominator) are decided by nlsat over intervals that the solver first proves to contain every term of the condition (GeoCtx in harness/C03.py)',
         'exact decimal rounding axioms R(x) = floor(100 x + 1/2) / 100 (ties excluded) for the layer elevations of the zero-centre shapes']
+    agg = {}
+    for r in rep.results:
+        for k in ('boxed_decisions', 'boxed_fallbacks', 'box_proofs', 'known_hits', 'memo_hits', 'refined_witnesses'):
+            agg[k] = agg.get(k, 0) + (r.get('stats') or {}).get(k, 0)
+    rep.extra['c03_decision_procedure'] = agg
     rep.process_failures()
     return rep.finish(rule='one obligation per (shape, path, compared item: header option, node, column, connection, layer, surface, well point, name list) plus cell-for-cell file equalities; distinct by z3 AST hash')
